@@ -8,23 +8,29 @@ Compared: EVERY field the Specs state for a result — count and order, TypeName
 every key of Resolution (`value`, `type`, `score`; str / bool / float as text, `translate.speccases.canon`) — which is
 what property C19 states ("text, type, offsets where given, and resolution fields").  The repository's own runner
 compares less (never Start / End, never Resolution.type, never the boolean score; see translate/speccases.py), so two
-families pass it and fail here, each in one field of every entity:
-  spec-field:IpAddress:Resolution.type:absent   recognize_ip_address reports {'value', 'score': 'None'} — no `type`
-  spec-field:Boolean:Resolution.score:0.0       recognize_boolean reports score 0.0, the Specs state the extractor's score
-(RTV.C19.spec_ip_type_absent / spec_boolean_score_differs are the kernel-checked witnesses; findings/specs-fields/.)
+families passed it and failed here, each in one field of every entity, until two one-line fixes of /repo:
+  spec-field:IpAddress:Resolution.type:absent   recognize_ip_address reported {'value', 'score': 'None'} — no `type`
+  spec-field:Boolean:Resolution.score:0.0       recognize_boolean reported score 0.0, the Specs state the extractor's score
+(findings/specs-fields/*.diff; RTV.C19.prefix_spec_ip_type_absent / prefix_spec_boolean_score_differs are the
+kernel-checked witnesses about the code before the fixes).  Both variants of the two functions are modelled; the check
+probes which one the tree follows (`ip_resolution`, `boolean_score` in the evidence) and asks the driver for that
+variant, so implementation = model holds on both trees, and the `spec-field:` reports come back if a tree follows the
+old code.
 Implementation and model are compared on the WHOLE ModelResult (type name, start, end, text, the whole resolution dict
 in insertion order — also keys the Specs do not state, e.g. the IP `score`): a disagreement is a `correspondence`
 report.  Implementation against spec, field by field: a `property` report `spec-field:<Model>:<field>[:<what>]` with the
 case as the concrete failing input.  Keys the implementation reports beyond the Specs are counted in the evidence
 (`c19_resolution_keys_beyond_specs`), never an alarm."""
+from fractions import Fraction
+
 from lib import common
 from lib.common import cps
 from translate import speccases
 
-THEOREMS = ['spec_ip_cases_partial', 'spec_ip_type_absent', 'spec_ip_cases_zh_partial', 'spec_ip_type_absent_zh',
-            'spec_guid_cases', 'spec_boolean_cases_partial', 'spec_boolean_score_differs', 'spec_hashtag_cases',
+THEOREMS = ['spec_ip_cases', 'spec_ip_cases_zh', 'spec_guid_cases', 'spec_boolean_cases', 'spec_hashtag_cases',
             'spec_mention_cases', 'spec_email_cases', 'spec_url_cases', 'spec_url_cases_zh', 'spec_case_counts',
-            'spec_field_counts']
+            'spec_field_counts', 'prefix_spec_ip_cases_partial', 'prefix_spec_ip_type_absent', 'prefix_spec_ip_zh',
+            'prefix_spec_boolean_cases_partial', 'prefix_spec_boolean_score_differs']
 GEN = ['chartables', 'regexes', 'emojitable', 'preprocess', 'speccases', 'tlds', 'pytables', 'urlgrammar']
 PROPS_MODULE = 'RTV.Props.C19'
 MODEL_NAME = {'ipEn': 'IpAddress', 'ipZh': 'IpAddress', 'guid': 'GUID', 'bool': 'Boolean', 'hashtag': 'Hashtag',
@@ -38,16 +44,46 @@ def ent_str(type_name, start, end, text, res):
 
 
 def parse_ents(line):
-    """driver / implementation line -> [(type, start, end, text, [(key, value text)])]"""
+    """driver / implementation line -> [(type, start, end, text, [(key, value)])]; value = text, or a Fraction for
+    the driver's exact `#num/den` (a float of the implementation)"""
     out = []
     for part in [p for p in line.split(';') if p]:
         t, a, b, x, res = part.split(':')
         kv = []
         for item in [i for i in res.split(',') if i]:
             k, v = item.split('=')
-            kv.append((common.uncps(k), common.uncps(v)))
+            if v.startswith('#'):
+                n, d = v[1:].split('/')
+                kv.append((common.uncps(k), Fraction(int(n), int(d)) if int(d) else None))
+            else:
+                kv.append((common.uncps(k), common.uncps(v)))
         out.append((common.uncps(t), int(a), int(b), common.uncps(x), kv))
     return out
+
+
+def same_ents(impl, model):
+    """implementation line = model line: every field equal; a float of the implementation (its repr) against the
+    model's exact fraction within 1e-9"""
+    if impl == model:
+        return True
+    if impl.startswith('err') or model.startswith('err'):
+        return False
+    pi, pm = parse_ents(impl), parse_ents(model)
+    if len(pi) != len(pm):
+        return False
+    for (t1, a1, b1, x1, kv1), (t2, a2, b2, x2, kv2) in zip(pi, pm):
+        if (t1, a1, b1, x1) != (t2, a2, b2, x2) or [k for k, _ in kv1] != [k for k, _ in kv2]:
+            return False
+        for (_, v1), (_, v2) in zip(kv1, kv2):
+            if isinstance(v2, Fraction):
+                try:
+                    if abs(Fraction(v1) - v2) > Fraction(1, 10 ** 9):
+                        return False
+                except (ValueError, ZeroDivisionError):
+                    return False
+            elif v1 != v2:
+                return False
+    return True
 
 
 def differing_fields(ents, res):
@@ -86,13 +122,25 @@ def model_cases(ctx):
            'hashtag': recognize_hashtag, 'mention': recognize_mention, 'email': recognize_email,
            'urlEn': recognize_url, 'urlZh': recognize_url}
     fam = speccases.families()
+    # which variant of the two repaired functions does the working tree follow? (both are modelled)
+    try:
+        probe = recognize_ip_address('1.1.1.1', 'en-us')[0].resolution
+    except Exception:
+        probe = {}
+    ip_v = 'typed' if 'type' in probe else 'score'
+    try:
+        bprobe = recognize_boolean('yes', 'en-us')[0].resolution.get('score')
+    except Exception:
+        bprobe = None
+    bool_v = 'pscore0' if bprobe == 0.0 else 'fixed'
+    ctx.extra['c19_variants'] = {'ip_resolution': ip_v, 'boolean_score': bool_v}
     lines, meta = [], []
     for key, cases in fam.items():
         for f, idx, inp, res in cases:
             if key == 'ipEn':
-                op, culture = 'spec.ip\ten\t' + cps(inp), 'en-us'
+                op, culture = 'spec.ip\ten\t%s\t%s' % (ip_v, cps(inp)), 'en-us'
             elif key == 'ipZh':
-                op, culture = 'spec.ip\tzh\t' + cps(inp), 'zh-cn'
+                op, culture = 'spec.ip\tzh\t%s\t%s' % (ip_v, cps(inp)), 'zh-cn'
             elif key == 'guid':
                 op, culture = 'spec.guid\t' + cps(inp), 'en-us'
             elif key in ('hashtag', 'mention', 'email'):
@@ -102,7 +150,7 @@ def model_cases(ctx):
             elif key == 'urlZh':
                 op, culture = 'spec.seq\turlzh\t' + cps(inp), 'zh-cn'
             else:
-                op, culture = 'spec.bool\t' + cps(inp), 'en-us'
+                op, culture = 'spec.bool\t%s\t%s' % (bool_v, cps(inp)), 'en-us'
             lines.append(op)
             meta.append((key, f, idx, inp, res, culture, op))
     model = common.driver(lines)
@@ -119,7 +167,7 @@ def model_cases(ctx):
         fi = {'op': op.split('\t')[0], 'spec_file': f, 'spec_index': idx, 'input': inp, 'culture': culture,
               'implementation': impl, 'model': m,
               'spec': [speccases.expected_fields(r) for r in res]}
-        if impl != m:
+        if not same_ents(impl, m):
             ctx.report('correspondence', 'c19-model-' + key,
                        '%s #%d %r: implementation %s, model %s' % (f, idx, inp, impl, m), failing_input=fi)
         # implementation against the spec, field by field
